@@ -206,7 +206,8 @@ Fixpoint ewrite (e : wentry) (w : ewriter) : list item :=
 (* what a format sees *)
 Definition calls (e : wentry) : list item := ewrite e EWTerm.
 
-(* Entry::sample_group / InflectableEntry::sample_group, impl by impl *)
+(* Entry::sample_group / InflectableEntry::sample_group, impl by impl (after the repair
+   "fix: forward sample_group through WithDimensions, ForceFlag and WithGlobalDimensions") *)
 Fixpoint sgroup (e : wentry) : group :=
   match e with
   | Plain _ g => g
@@ -214,7 +215,18 @@ Fixpoint sgroup (e : wentry) : group :=
   | Boxed e' => sgroup e'                                (* collected into a SmallVec, iterated *)
   | Merged a b | MergedRef a b => sgroup a ++ sgroup b   (* chain *)
   | ContE _ e' | ContI _ e' | OptSomeE e' | OptSomeI e' | Root e' => sgroup e'
-  (* no sample_group method in these impls: the trait default (empty) applies *)
+  | WithDimsE e' _ | WithDimsI e' _ | WithGDimsE e' _ _ | ForceE e' _ | ForceI e' _ => sgroup e'
+  end.
+
+(* The mechanism as it was before the repair: these five impls had no sample_group method, so the trait
+   default (the empty group) applied.  Kept for the refutation lemma and the corpus witnesses. *)
+Fixpoint sgroup_before_fix (e : wentry) : group :=
+  match e with
+  | Plain _ g => g
+  | Empty | OptNoneE | OptNoneI => []
+  | Boxed e' => sgroup_before_fix e'
+  | Merged a b | MergedRef a b => sgroup_before_fix a ++ sgroup_before_fix b
+  | ContE _ e' | ContI _ e' | OptSomeE e' | OptSomeI e' | Root e' => sgroup_before_fix e'
   | WithDimsE _ _ | WithDimsI _ _ | WithGDimsE _ _ _ | ForceE _ _ | ForceI _ _ => []
   end.
 
